@@ -103,6 +103,11 @@ def configs(tier):
                 if x == (2,) and (ranks, it) != ((1,), 1):
                     continue  # order-2 X: fit raises (see report)
                 add("tucker", ns=ns, x=x, ranks=ranks, it=it, npred=2)
+    # the same estimator object fitted a second time on other data (after its weights and predictions were used)
+    add("tucker", ns=2, x=(2, 2), ranks=(1, 1), it=1, npred=2, refit=1)
+    add("tucker", ns=2, x=(2, 2), ranks=(2, 1), it=1, npred=2, refit=1)
+    add("cp", ns=2, x=(2, 2), y=(), R=1, it=1, npred=2, refit=1)
+    add("cp", ns=2, x=(2,), y=(2,), R=2, it=1, npred=2, refit=1)
     # CP_PLSR (3 samples; ny == 0: vector-valued Y).  Two components with permuted samples is left out: the second
     # component's deflated terms are not brought to a common syntactic form by the congruence argument (undecided)
     def plsr(x, ny, nc, it, inv):
@@ -427,6 +432,12 @@ def h_cp(E, cfg):
         backend.configure(solve="havoc")
     est = CPRegressor(weight_rank=R, tol=0, reg_W=reg_W, n_iter_max=it, random_state=7, verbose=0)
     try:
+        if cfg.get("refit"):
+            X0 = E.real("X0", (ns,) + x)
+            Y0 = E.real("Y0", (ns,) + y)
+            est.fit(X0, Y0)
+            _ = est.vec_W_, est.weight_tensor_
+            est.predict(Xn)
         est.fit(X, Y)
     except Exception as e:
         E.prove("fit/no_exception", False, detail=f"{type(e).__name__}: {e}")
@@ -455,6 +466,12 @@ def h_tucker(E, cfg):
         backend.configure(solve="havoc")
     est = TuckerRegressor(weight_ranks=list(ranks), tol=0, reg_W=reg_W, n_iter_max=it, random_state=7, verbose=0)
     try:
+        if cfg.get("refit"):
+            X0 = E.real("X0", (ns,) + x)
+            Y0 = E.real("Y0", (ns,))
+            est.fit(X0, Y0)
+            _ = est.vec_W_, est.weight_tensor_
+            est.predict(Xn)
         est.fit(X, Y)
     except Exception as e:
         E.prove("fit/no_exception", False, detail=f"{type(e).__name__}: {e}")
